@@ -195,51 +195,21 @@ def _kdf_context(ctx):
         ctx.ob("R-kdf", "slot:%s.%s" % (ty, m), bool(dd) and dd["slot"] == slot and dd["kind"] == kind,
                "the value set by CoseKdfContextBuilder::%s is decoded from slot %d as %s" % (m, slot, kind), where=d.span,
                detail={"field": fld, "found": dd})
-    # the variable tail
+    # the variable tail, as a sequence value: map(try_as_bytes?, <the input array>[4..]) - wire order, nothing dropped
+    from lib.seq import Seq, show_seq, X
+    from lib.prov import strip_sites
     tail_f = bfields.get("add_supp_priv_info")
     ok = False
     det = {}
     if tail_f in agg.fields:
         op, bb, idx = agg.fields[tail_f]
-        l = None
-        cur = op
-        cb, ci = bb, idx
-        for _ in range(6):
-            if cur["k"] in ("copy", "move") and not cur["place"]["p"]:
-                l = cur["place"]["l"]
-                if d.local_name(l):
-                    break
-                ds = list(pd.reaching(l, cb, ci))
-                if len(ds) != 1 or ds[0] == -1:
-                    break
-                dl, dbb, didx, payload = pd._defs[ds[0]]
-                if didx == "term" or payload["k"] != "use":
-                    break
-                cur, cb, ci = payload["op"], dbb, didx
-        lv = ("local", l, d.local_name(l)) if l is not None else None
-        pushes = [e for e in pd.effects() if e["kind"] == "call" and e["place"] == lv and e["callee"] == VEC_PUSH]
-        revs = [e for e in pd.effects() if e["kind"] == "call" and e["callee"] == VEC_REVERSE]
-        others = [e for e in pd.effects() if e["kind"] == "call" and e["place"] == lv and e["callee"] not in (VEC_PUSH,)]
-        det = {"pushes": len(pushes), "reverse_calls": len(revs)}
-        if len(pushes) == 1:
-            p = pushes[0]
-            v = p["args"][1]
-            drain = vl.drains.get(None)
-            is_tail = (v[0] == "tryok" and is_call(v[1], codec.TRY_BYTES) and is_call(v[1][2][0], codec.VEC_REMOVE)
-                       and v[1][2][0][3][1] in vl.drains and vl.drains[v[1][2][0][3][1]]["K"] == 4)
-            rev_ok = False
-            if len(revs) == 1:
-                r = revs[0]
-                t = d.blocks[r["bb"]]["term"]
-                # reverse(&mut *deref_mut(&mut supp_priv_info)) after the loop and before the Ok
-                tgt = [s for s in subterms(pd.operand_term(t["args"][0], r["bb"], "term"))]
-                header = vl.drains[v[1][2][0][3][1]]["header"] if is_tail else None
-                rev_ok = (header is not None and r["bb"] not in dict(d.cfg.loops())[header]
-                          and d.cfg.dominates(r["bb"], agg.bb) and _borrows_local(pd, t["args"][0], r["bb"], l))
-            det.update({"tail_drain_from": 4 if is_tail else None, "reversed_after_loop": rev_ok})
-            ok = is_tail and rev_ok
+        s = Seq(d, pd, vl).of_operand(op, bb, idx)
+        arr = ("tryok", ("call", codec.TRY_ARRAY, (("param", 0),)))
+        want_s = ("map", ("tryok", ("call", codec.TRY_BYTES, (X,))), ("elems", arr, 4, None))
+        det = {"sequence": show_seq(s)[:300], "expected": show_seq(want_s)}
+        ok = s == want_s
     ctx.ob("R-kdf", "tail:%s" % ty, ok,
-           "every slot from index 4 on must be a byte string; they are collected by the reverse tail drain and reversed once, so wire order is preserved",
+           "every slot from index 4 on must be a byte string; the field holds them converted one by one in wire order",
            where=d.span, detail=det, sample=det)
     kdf_encoder(ctx, "R-kdf-enc")
     cen = {}
@@ -270,42 +240,35 @@ KDF_WANT = [("algorithm", 0, "nested<common::RegisteredLabelWithPrivate<iana::Al
 
 
 def kdf_encoder(ctx, rule):
+    """the encoder's array as a sequence value: [algorithm, PartyU, PartyV, SuppPub] ++ map(Value::Bytes, self.<tail>)"""
+    from lib.seq import Seq, show_seq, X
     prog = ctx.prog
     ty = "context::CoseKdfContext"
     bfields = _kdf_builder_fields(prog)
     want = KDF_WANT
     tail_f = bfields.get("add_supp_priv_info")
-    # encoder
     e = prog.fn(enc_key(ty))
     pe = Prov(e)
     rc = codec.returned_collection(e, pe, "Array")
-    els = codec.vec_elements(e, pe, *rc) if rc else None
     problems = []
-    if els is None:
-        problems.append("cannot follow the encoder")
+    s = Seq(e, pe).of_local(*rc) if rc else None
+    if s is None:
+        problems.append("the encoder does not return Ok(Value::Array(<vector built here>))")
     else:
-        fixed = [x for x in els if x["loop"] is None]
-        loops = [x for x in els if x["loop"] is not None]
-        for (m, slot, kind), el in zip(want, fixed):
-            k2, f2 = codec.emit_kind(prog, e, pe, el)
+        parts = list(s[1]) if s[0] == "cat" else [s]
+        fixed = parts[0][1] if parts and parts[0][0] == "lit" else ()
+        rest = parts[1:] if parts and parts[0][0] == "lit" else parts
+        if len(fixed) != 4:
+            problems.append("%d fixed slots, expected 4 (%s)" % (len(fixed), show_seq(s)[:120]))
+        for (m, slot, kind), term in zip(want, fixed):
+            k2, f2 = codec.emit_kind(prog, e, pe, {"term": term, "op": {"k": "const", "ty": "?", "val": None}, "at": (0, "term")})
             if k2 != kind or f2 != bfields.get(m):
                 problems.append("slot %d is `%s` as %s, expected `%s` as %s" % (slot, f2, k2, bfields.get(m), kind))
-        if len(fixed) != 4:
-            problems.append("%d fixed slots, expected 4" % len(fixed))
-        if len(loops) != 1:
-            problems.append("expected one loop emitting the trailing byte strings")
-        else:
-            t = loops[0]["term"]
-            okl = t[0] == "aggr" and t[2] == "Bytes"
-            if okl:
-                src = codec_loop_source(("field", ("variant", t[3][0][1][1][1], "Some"), "0")) if False else None
-                inner = t[3][0][1]
-                it = codec_loop_source(inner)
-                okl = it == ("field", ("param", 0), tail_f)
-            if not okl:
-                problems.append("the tail is not `Value::Bytes(x)` for each x of self.%s in order: %s" % (tail_f, show(t)[:80]))
+        want_tail = ("map", ("aggr", "ciborium::value::Value", "Bytes", (("0", X),)), ("elems", ("field", ("param", 0), tail_f), 0, None))
+        if rest != [want_tail]:
+            problems.append("the tail is not Value::Bytes(x) for each x of self.%s in list order: %s" % (tail_f, " ++ ".join(show_seq(x) for x in rest)[:160]))
     ctx.ob(rule, "encoder:%s" % ty, not problems, "COSE_KDF_Context is emitted as [algorithm, PartyU, PartyV, SuppPub, private byte strings in order...]",
-           where=e.span, detail={"problems": problems})
+           where=e.span, detail={"problems": problems, "sequence": show_seq(s)[:300] if s else None})
 
 
 def _borrows_local(pv, op, bb, l):
